@@ -28,7 +28,7 @@ ASSUMPTIONS = ['excluded by construction (counted): plain re-linking of an objec
                'touching objects that are unreachable; undo of transactions at or before the pack time',
                'a pack that raises and leaves the protected region unchanged is an allowed outcome (counted)',
                'the unpacked twin is checked against the history model by the full battery (as in C04)']
-BUDGET = {'quick': {'examples': 7000, 'workers': 8},
+BUDGET = {'quick': {'examples': 8000, 'workers': 8},
           'thorough': {'examples': 100000, 'workers': 16}}
 
 KINDS = ['fs', 'fs', 'fs', 'fs-nogc', 'fs-nokeep', 'mapping', 'demo']
